@@ -1164,3 +1164,13 @@ pub proof fn lemma_rt_index(bytes: Seq<u8>, pos: int, limit: int, std_variants: 
         lemma_rt_nsnnwn(bytes, pos + 1, limit, n);
     }
 }
+
+/// a fresh, tight buffer that received exactly the bit string bs holds bs padded with 0 to whole octets (X.691 11.2.1, open type content)
+pub proof fn lemma_fresh_is_bits(b: Seq<u8>, p: int, bs: Seq<bool>)
+    requires appended(Seq::<u8>::empty(), 0, b, p, bs), tight_seq(b, p)
+    ensures is_bits(b, bs)
+{
+    assert forall|j: int| 0 <= j < b.len() * 8 implies #[trigger] bit_at(b, j) == (if j < bs.len() { bs[j] } else { false }) by {
+        if j >= p { assert(!bit_at(b, j)); }
+    }
+}
